@@ -90,6 +90,15 @@ func buildCorpus(e *Env, seed uint64, nMut int, long bool) (*common.Corpus, corp
 	var litBases []string
 	for _, p := range lits {
 		probe := strings.HasPrefix(filepath.Base(p), "probe")
+		if strings.HasPrefix(filepath.Base(p), "grown") {
+			// inputs found by an earlier coverage-guided growth on the pinned tree:
+			// plain corpus members (no residues are derived from them)
+			for _, s := range readLiteralFile(p) {
+				add(s, common.FGrown)
+				st.Grown++
+			}
+			continue
+		}
 		for _, s := range readLiteralFile(p) {
 			fl := common.FLiteral
 			if probe {
